@@ -128,7 +128,8 @@ def _attack(col, ctx, np, shard, only):
             full = sf_all(**{tag: data})                                  # (N, guesses, words)
             inter = full[np.arange(N)[:, None], true[None, :], np.arange(nwords)[None, :]]       # intermediate value under the TRUE (reference) round key
             model_k = 'bit' if (att == 'mia' and ki % 2 == 1) else model          # a 1-bit model bounds the mutual information by ln 2 < 1 nat
-            mo = {'hw': scared.HammingWeight(), 'bit': scared.Monobit(0), 'value': scared.Value()}[model_k]
+            if att in ('anova', 'nicv', 'snr') and ki % 2 == 1: model_k = 'bit3'     # a higher bit of the target, classes left to the automatic class set
+            mo = {'hw': scared.HammingWeight(), 'bit': scared.Monobit(0), 'bit3': scared.Monobit(3), 'value': scared.Value()}[model_k]
             leak = mo(inter).astype('float64')
             noise = np.round(rng_for(seed, 'c17-noise', cipher).uniform(-0.125, 0.125, (N, nwords + 2)), 4)     # bounded, seeded, independent per sample
             traces = np.concatenate([leak, np.zeros((N, 2))], axis=1) + noise
@@ -181,7 +182,7 @@ def _run_attack(np, scared, att, SF, mo, model, ths, words, cipher, nguess, tag,
         elif att == 'dpa': a = scared.DPAAttack(selection_function=sf, model=mo, discriminant=scared.maxabs)
         else:
             parts = list(range(9)) if cipher == 'aes' else list(range(5))
-            if isinstance(mo, scared.Monobit): parts = [0, 1]
+            if isinstance(mo, scared.Monobit): parts = [0, 1] if att == 'mia' else None
             C = {'anova': scared.ANOVAAttack, 'nicv': scared.NICVAttack, 'snr': scared.SNRAttack, 'mia': scared.MIAAttack}[att]
             kw = dict(selection_function=sf, model=mo, discriminant=scared.nanmax, partitions=parts)
             if att == 'mia':
